@@ -63,6 +63,7 @@ struct Ctx {
   std::vector<std::string> trace;
   // --- run-wide settings
   bool tracing = false;        // record trace lines (replay / sample capture)
+  bool live_trace = false;     // also print them as they happen (debugging crashes)
   std::string prop;            // property being checked (selects oracles/weights), "" = all
   std::string workdir = ".";
   std::map<std::string, std::string> args;  // extra --key=value harness arguments
